@@ -288,6 +288,17 @@ func (b *BloomSearchEngine) Stop(ctx context.Context) error {
 	b.stateMu.Lock()
 	b.stopped = true
 	verifPoint("stop.flagged", 0, 0, nil)
+	if !b.started {
+		// IngestRows and Flush accept work before Start. On an engine that was
+		// never started nobody would drain ingestChan, so those batches would
+		// never be answered (and a pending Flush would never return): run the
+		// workers now, so the shutdown drain below treats them like any other
+		// accepted batch.
+		b.started = true
+		b.wg.Add(2)
+		go b.ingestWorker()
+		go b.flushWorker()
+	}
 	b.stateMu.Unlock()
 
 	// Signal workers to stop
